@@ -238,6 +238,17 @@ func (e *env) ev(x ast.Expr, hint types.Type) Val {
 				src = e.cur
 				nb, ok = src.names[n.Name]
 			}
+			if !ok {
+				// inside an inlined callee: the callers' variables, innermost first
+				fs := e.st
+				if e.cur != nil {
+					fs = e.cur
+				}
+				for i := len(fs.frames) - 1; i >= 0 && !ok; i-- {
+					nb, ok = fs.frames[i].names[n.Name]
+					src = fs
+				}
+			}
 			if ok {
 				v := src.get(nb.v)
 				if nb.isAddr {
@@ -287,6 +298,16 @@ func (e *env) ev(x ast.Expr, hint types.Type) Val {
 				if v, ok := e.pkg.Scope().Lookup(id.Name).(*types.Var); ok {
 					if _, isStruct := v.Type().Underlying().(*types.Struct); isStruct {
 						return e.field(e.addrOf(n.X), n.Sel.Name)
+					}
+				}
+			}
+		}
+		if ix, ok := n.X.(*ast.IndexExpr); ok {
+			// s[i].f: read the one field through the element's address (do not load the element)
+			if p, ok := e.tryAddrOf(ix); ok {
+				if pt, isPtr := p.T.Underlying().(*types.Pointer); isPtr {
+					if _, isStruct := pt.Elem().Underlying().(*types.Struct); isStruct {
+						return e.field(p, n.Sel.Name)
 					}
 				}
 			}
@@ -459,6 +480,18 @@ func (e *env) arrayBase(x ast.Expr) Val {
 		}
 	}
 	return e.ev(x, nil)
+}
+
+func (e *env) tryAddrOf(x ast.Expr) (v Val, ok bool) {
+	defer func() {
+		if r := recover(); r != nil {
+			if _, isEng := r.(engineErr); isEng {
+				panic(r)
+			}
+			ok = false
+		}
+	}()
+	return e.addrOf(x), true
 }
 
 func (e *env) tryAddrOfArrayField(sel *ast.SelectorExpr) (v Val, ok bool) {
